@@ -84,15 +84,15 @@ TOL_NESTED = {
     "Sm211": 1e-5,  # 3.0e-7
 }
 TOL_G = {  # relative to max(1,|g|); measured maxima over the thorough lattice in comments
-    "g3": 2e-5,
-    "g4": 2e-6,
-    "g5": 1e-6,
-    "g6": 2e-6,
-    "g8": 2e-6,
-    "g18": 1e-6,
-    "g19": 1e-6,
-    "g21": 2e-6,
-    "g22": 1e-7,
+    "g3": 2e-5,  # 1.3e-6
+    "g4": 2e-6,  # 1.1e-7
+    "g5": 1e-6,  # 1.9e-8
+    "g6": 2e-6,  # 1.6e-7
+    "g8": 2e-6,  # 1.5e-7
+    "g18": 2e-6,  # 2.0e-7
+    "g19": 1e-6,  # 6.9e-8
+    "g21": 4e-6,  # 3.6e-7
+    "g22": 1e-7,  # 3.9e-9
 }
 TOL_LM = 1e-11  # closed forms: rounding, relative
 TOL_CONJ = 1e-13
